@@ -69,6 +69,23 @@ def oracle_fails(pid, rec):
 NOT_APPLICABLE = {}
 
 PROPS = {
+    "C12": {
+        "manifest_text": "Lean 4 theorems (28) about a model of the serde bridge (ValueSerializer/ScalarSerializer, the untagged Scalar/Value deserializers incl. serde's Content buffering, serialize_as_i64 narrowing, JSON transport) and of the derive-generated object view: to_value(&v) is the identity on date-free marker-free values and preserves kind, render, source, to_kstr, the four state answers and equality; from_value and the JSON round trip are the identity on the stated well-formed domain (with counterexample theorems for every excluded point, replayed on the real code); an integer outside i64 is an error or a float, never another integer (all widths); the derived view of a struct equals its serde conversion and renders identically in templates. The agreement of the many Rust views (Value, ValueCow Owned/Borrowed, &T, Option, Vec, maps, derived structs, to_value, to_object, from_value, serde_json) with the single Lean definition of each observation is established by the differential run (up to 26 views per datum), not by a theorem.",
+        "manifest_note": "Trusted: Lean kernel + allowed axioms, theorem statements, hand-written serde model (validated differentially against a recording Serializer). The time crate's text parsers are an oracle tabulated per string by the harness; f64 decimal text and serde_json are modelled at the level of serde's event tree. Partial: view agreement is differential only.",
+        "technique": "Lean 4 proof (round-trip and narrowing laws by structural induction on values / serde trees) + differential correspondence across all views",
+        "design_ref": "DESIGN.md section 7 C12",
+        "rule": "cases = (a) every scalar of the value pool (ints at the i8..i64/2^53 boundaries, floats incl. -0/NaN/inf/subnormal, strings incl. numeric-, date- and marker-looking text, 9 date-times, 9 dates, the 4 State markers) alone, in a 1-array and in a single-key object, then random values of depth <= 4 (tame and wild streams, multi-key objects rebuilt 3x), each datum as one `views` line (14-26 views x 9 observations) plus one line per conversion (to_value, from_value, JSON text, serde_json::Value, recorded Serialize image, to_object/to_scalar); (b) instances of 12 derive(Serialize,Deserialize,ObjectView,ValueView) structs: derived view vs to_value vs to_object, typed round trip, templates with derived vs serde-converted globals; (c) a serde-only family (enums, tuples, newtypes, 128-bit, odd map keys) with u64/i64 boundary integers through to_value/to_object/to_scalar/JSON/typed round trip; non-trivial = distinct input whose observation is not an empty ok output",
+        "explanation": "Lean theorems C12_* about the model of the serde side (ValueSerializer/ScalarSerializer/ObjectSerializer/MapKeySerializer, untagged Value/Scalar deserialisation, ValueDeserializer::deserialize_any, derive(ObjectView,ValueView)): exact image of to_value, the three round trips on precisely stated domains with counterexample theorems outside them, integer narrowing, derived view = serde conversion. The agreement of the many Rust ValueView impls (Value, ValueCow, &T, Option<T>, Vec<T>, maps, native scalars, derived structs) with the model's single definition of render/source/type_name/query_state/to_kstr/==/to_value is established by this differential run, not by a theorem (partial).",
+        "exhaustive": False,
+        "assumptions": [
+            "partial: agreement of the Rust trait impls with the single Lean definition of each observation is differential (every view of every generated datum), not proved",
+            "text parsers of the `time` crate behind friendly_date(_time)::deserialize are a parameter (TextOracle) of the model, universally quantified in the theorems; the harness tabulates them per string with the format descriptions copied from scalar/{date,datetime}.rs",
+            "serde_json is modelled on the level of events (jsonOfSD): non-negative integers read back as u64, finite doubles read back exactly (harness enables serde_json's `float_roundtrip`; without it 30% of random doubles come back 1 ulp off), NaN/inf written as null",
+            "serde's untagged-enum buffering (private Content type) and serde_derive's output for default attributes are modelled from their source (serde 1.0.203), and checked through the recorded Serialize image (`valsd`, `td` lines)",
+            "objects are compared up to iteration order (HashMap); order-dependent text (render of multi-key objects) is checked against the order of the very instance that printed it",
+        ],
+        "trusted": ["recording serde::Serializer of the harness (harness/src/c12.rs) that transmits the serde data-model tree of a Rust datum"],
+    },
     "C11": {
         "manifest_text": "Lean 4 theorems (30) about the model of value_eq / value_cmp / scalar_eq / scalar_cmp for all values: equality is symmetric (for marker-free values with distinct object keys) and reflexive (NaN-free), != is its negation, partial_cmp is dual under swapping, whenever two values are ordered <= / >= hold exactly when < / > or == does and equal values are never strictly ordered, integer/float equality up to 2^53, and the outcome of == and of every ordering operator is invariant under permutation of object entry lists at any depth (construction independence, for the repaired value_cmp); every excluded point has a counterexample theorem replayed on the real code. Tied to /repo by all ordered pairs (and triples in thorough) of an ~80-value pool through Value, ValueCow, ValueViewCmp and through templates, with multi-key objects built several times independently.",
         "manifest_note": "Trusted: Lean kernel + allowed axioms, theorem statements, hand-written value model (validated differentially). IEEE reading of doubles and the time crate's instant-based equality are modelled, not verified. Observations outside the property statement are recorded as counterexample theorems only (e.g. transitivity across date/date-time, `1 == true == 2`).",
